@@ -21,14 +21,17 @@ type Env struct {
 	bound map[string]bool
 	qdepth int
 	atEnd  bool // names are resolved at the end of block `at` (postconditions), not at its head
+	params    map[string]bool // names that are parameters (not results / lets)
 	prevVals  map[*ssa.Phi]Val // step clauses: header values of the loop's phis
 	prevState *State
 }
 
 func (fx *fnExec) baseEnv(cur *State) *Env {
 	env := &Env{fx: fx, vars: map[string]TV{}, cur: cur, old: fx.pre, pkg: fx.fn.Pkg.Pkg}
+	env.params = map[string]bool{}
 	for k, v := range fx.penv {
 		env.vars[k] = v
+		env.params[k] = true
 	}
 	for k, v := range fx.lets {
 		env.vars[k] = v
@@ -500,10 +503,70 @@ func (fx *fnExec) evalCall(e *Expr, env *Env) TV {
 			panic(contractErr("unknown type " + tn))
 		}
 		return TV{Sc{eq(v.Tag, num(int64(tag))), SBool}, tBool}
+	case "$pos", "$end":
+		v := fx.eval(e.Args[0], env)
+		ref, _, _, ok := refOf(v.V)
+		if !ok {
+			panic(contractErr(e.Name + " of a non-reference"))
+		}
+		if e.Name == "$pos" {
+			return TV{Sc{fx.gposOf(env.cur, ref), SInt}, tInt}
+		}
+		return TV{Sc{fx.gendOf(env.cur, ref), SInt}, tInt}
+	case "pf": // position soundness of a node (nil: true) or of every element of a slice, chained in order
+		v := fx.eval(e.Args[0], env)
+		return TV{Sc{fx.pfTerm(v, env.cur), SBool}, tBool}
+	case "within": // within(x, lo, hi): x is nil/empty, or lies inside [lo, hi]
+		v := fx.eval(e.Args[0], env)
+		lo, hi := fx.evalInt(e.Args[1], env), fx.evalInt(e.Args[2], env)
+		return TV{Sc{fx.withinTerm(v, env.cur, lo, hi), SBool}, tBool}
+	case "lowerBound": // the earliest position a node built by this call can start at
+		cur := *env
+		cur.cur = env.old
+		lb := fx.evalInt(&Expr{Op: "sel", Name: "Pos", Args: []*Expr{{Op: "sel", Name: "Token", Args: []*Expr{{Op: "sel", Name: "Lexer", Args: []*Expr{{Op: "id", Name: "p"}}}}}}}, &cur)
+		for _, name := range sortedKeys(env.vars) {
+			if !env.params[name] || name == "recv" || name == "p" {
+				continue
+			}
+			tv := env.vars[name]
+			if tv.T == nil {
+				continue
+			}
+			if tv.T.String() == modPath+"/token.Pos" {
+				t := tv.V.(Sc).T
+				lb = ite(and(app("<=", "0", t), app("<", t, lb)), t, lb)
+			} else if tp, _, ok := tokenSpan(tv); ok {
+				lb = ite(and(app("<=", "0", tp), app("<", tp, lb)), tp, lb)
+			} else if ref, isNil, _, ok := refOf(tv.V); ok && fx.g.isNodeRefType(tv.T) {
+				t := fx.gposOf(env.old, ref)
+				lb = ite(and(not(isNil), app("<=", "0", t), app("<", t, lb)), t, lb)
+			}
+		}
+		return TV{Sc{fx.s.define("lb", SInt, lb), SInt}, tInt}
+	case "argsWithin": // every position / node handed in lies before the current token and is position-sound
+		var cs []string
+		tokPos := fx.evalInt(&Expr{Op: "sel", Name: "Pos", Args: []*Expr{{Op: "sel", Name: "Token", Args: []*Expr{{Op: "sel", Name: "Lexer", Args: []*Expr{{Op: "id", Name: "p"}}}}}}}, env)
+		for _, name := range sortedKeys(env.vars) {
+			if !env.params[name] || name == "recv" || name == "p" {
+				continue
+			}
+			tv := env.vars[name]
+			if tv.T == nil {
+				continue
+			}
+			if tv.T.String() == modPath+"/token.Pos" {
+				cs = append(cs, app("<=", "0", tv.V.(Sc).T), app("<=", tv.V.(Sc).T, tokPos))
+			} else if tp, te, ok := tokenSpan(tv); ok {
+				cs = append(cs, app("<=", "0", tp), app("<=", tp, te), app("<=", te, tokPos))
+			} else {
+				cs = append(cs, fx.pfTerm(tv, env.cur), fx.withinTerm(tv, env.cur, "0", tokPos))
+			}
+		}
+		return TV{Sc{and(cs...), SBool}, tBool}
 	case "wfArgs": // every node-typed parameter (or slice of nodes) handed in is well-formed
 		var cs []string
 		for _, name := range sortedKeys(env.vars) {
-			if name == "result" || name == "recv" || strings.HasPrefix(name, "result") {
+			if !env.params[name] || name == "recv" {
 				continue
 			}
 			tv := env.vars[name]
@@ -511,6 +574,25 @@ func (fx *fnExec) evalCall(e *Expr, env *Env) TV {
 				continue
 			}
 			cs = append(cs, fx.wfTerm(tv, env))
+		}
+		return TV{Sc{and(cs...), SBool}, tBool}
+	case "pfLocals": // every loop-carried node value (phi of this loop head) is position-sound and lies before the current token
+		var cs []string
+		if env.fr != nil && env.at != nil {
+			tokPos := fx.evalInt(&Expr{Op: "sel", Name: "Pos", Args: []*Expr{{Op: "sel", Name: "Token", Args: []*Expr{{Op: "sel", Name: "Lexer", Args: []*Expr{{Op: "id", Name: "p"}}}}}}}, env)
+			lbT := ""
+			for _, in := range env.at.Instrs {
+				phi, ok := in.(*ssa.Phi)
+				if !ok {
+					break
+				}
+				if v, ok := env.fr.vals[phi]; ok {
+					if lbT == "" {
+						lbT = fx.evalInt(&Expr{Op: "call", Name: "lowerBound"}, env)
+					}
+					cs = append(cs, fx.pfTerm(TV{v, phi.Type()}, env.cur), fx.withinTerm(TV{v, phi.Type()}, env.cur, lbT, tokPos))
+				}
+			}
 		}
 		return TV{Sc{and(cs...), SBool}, tBool}
 	case "wfLocals": // every loop-carried node value (phi of this loop head) is well-formed
@@ -828,9 +910,11 @@ func (fx *fnExec) calleeEnv(fn *ssa.Function, c *Contract, args []Val, cur, old 
 	} else if fn.Object() != nil {
 		env.pkg = fn.Object().Pkg()
 	}
+	env.params = map[string]bool{}
 	if args == nil {
 		for k, v := range fx.penv {
 			env.vars[k] = v
+			env.params[k] = true
 		}
 		for k, v := range fx.lets {
 			env.vars[k] = v
@@ -846,6 +930,7 @@ func (fx *fnExec) calleeEnv(fn *ssa.Function, c *Contract, args []Val, cur, old 
 			n = fmt.Sprintf("arg%d", i)
 		}
 		env.vars[n] = TV{args[i], typs[i]}
+		env.params[n] = true
 	}
 	if fn.Signature.Recv() != nil && len(args) > 0 {
 		env.vars["recv"] = TV{args[0], typs[0]}
@@ -991,4 +1076,89 @@ func notNilTerm(v Val) string {
 		return and(cs...)
 	}
 	return "true"
+}
+
+func (fx *fnExec) pfTerm(v TV, st *State) string {
+	switch x := v.V.(type) {
+	case TupleV:
+		var cs []string
+		if tt, ok := v.T.(*types.Tuple); ok {
+			for i, e := range x.V {
+				cs = append(cs, fx.pfTerm(TV{e, tt.At(i).Type()}, st))
+			}
+		}
+		return and(cs...)
+	case SliceV:
+		if !fx.g.isNodeRefType(x.Elem) {
+			return "true"
+		}
+		return fx.pfAllTerm(st, x)
+	}
+	ref, isNil, _, ok := refOf(v.V)
+	if !ok || !fx.g.isNodeRefType(v.T) {
+		return "true"
+	}
+	return or(isNil, fx.pfOf(st, ref))
+}
+
+func (fx *fnExec) withinTerm(v TV, st *State, lo, hi string) string {
+	switch x := v.V.(type) {
+	case TupleV:
+		var cs []string
+		if tt, ok := v.T.(*types.Tuple); ok {
+			for i, e := range x.V {
+				cs = append(cs, fx.withinTerm(TV{e, tt.At(i).Type()}, st, lo, hi))
+			}
+		}
+		return and(cs...)
+	case SliceV:
+		if !fx.g.isNodeRefType(x.Elem) {
+			return "true"
+		}
+		first, last := fx.elemRef(x, "0"), fx.elemRef(x, sub(x.Len, "1"))
+		return or(eq(x.Len, "0"), and(app("<=", lo, fx.gposOf(st, first)), app("<=", fx.gposOf(st, first), fx.gendOf(st, first)), app("<=", fx.gposOf(st, last), fx.gendOf(st, last)), app("<=", fx.gendOf(st, first), fx.gendOf(st, last)), app("<=", fx.gendOf(st, last), hi)))
+	case Sc:
+		if v.T != nil && v.T.String() == modPath+"/token.Pos" {
+			return or(app("<", x.T, "0"), and(app("<=", lo, x.T), app("<=", x.T, hi)))
+		}
+		return "true"
+	}
+	ref, isNil, _, ok := refOf(v.V)
+	if !ok || !fx.g.isNodeRefType(v.T) {
+		return "true"
+	}
+	return or(isNil, and(app("<=", lo, fx.gposOf(st, ref)), app("<=", fx.gposOf(st, ref), fx.gendOf(st, ref)), app("<=", fx.gendOf(st, ref), hi)))
+}
+
+// tokenSpan: Pos and End of a token.Token passed by value.
+func tokenSpan(tv TV) (pos, end string, ok bool) {
+	sv, isS := tv.V.(StructV)
+	if !isS || tv.T == nil || tv.T.String() != modPath+"/token.Token" {
+		return "", "", false
+	}
+	st := structOf(tv.T)
+	for i := 0; i < st.NumFields(); i++ {
+		switch st.Field(i).Name() {
+		case "Pos":
+			pos = sv.F[i].(Sc).T
+		case "End":
+			end = sv.F[i].(Sc).T
+		}
+	}
+	return pos, end, pos != "" && end != ""
+}
+
+// pfAllTerm: every element of a node slice is position-sound, non-empty-or-empty but ordered (pos <= end),
+// lies between the start of the first and the end of the last element, and consecutive elements do not overlap.
+func (fx *fnExec) pfAllTerm(st *State, x SliceV) string {
+	k := sym(fmt.Sprintf("k!q%d", len(fx.s.Items)))
+	ek := fx.elemRef(x, k)
+	ek1 := fx.elemRef(x, app("+", k, "1"))
+	e0 := fx.elemRef(x, "0")
+	el := fx.elemRef(x, sub(x.Len, "1"))
+	body := and(fx.pfOf(st, ek), app("<=", fx.gposOf(st, ek), fx.gendOf(st, ek)),
+		app("<=", fx.gposOf(st, e0), fx.gposOf(st, ek)), app("<=", fx.gendOf(st, ek), fx.gendOf(st, el)),
+		implies(app("<", app("+", k, "1"), x.Len), app("<=", fx.gendOf(st, ek), fx.gposOf(st, ek1))))
+	fx.s.usesQuant = true
+	return fmt.Sprintf("(forall ((%s Int)) (! (=> (and (<= 0 %s) (< %s %s)) %s) :pattern (%s)))", k, k, k, x.Len, body, ek)
 }
